@@ -382,6 +382,10 @@ class ReadInterp(Interp):
         except Unsupported:
             return UNIT
         if isinstance(target, PathVal):
+            if self.summarise_props and target.path and isinstance(target.path[0], str) and target.path[0].startswith("$p") and len(target.path) > 1:
+                # the bytes a decoded property set occupied are accounted as enc(props): it must not change afterwards
+                raise Unsupported("a field of a decoded property set (%s) is modified after decoding: its encoded length no longer "
+                                  "equals the bytes that were consumed" % ".".join(map(str, target.path[1:])))
             self.store(target.path, v, e["r"])
         return UNIT
 
